@@ -1,14 +1,14 @@
 SPECIFICATION Spec
 CONSTANTS
-  Sids = {1,2}
-  Threads = {1,2}
-  Deadlines = {1,2}
-  MaxNow = 2
-  MaxSaves = 2
+  Sids = {1,2,3,4}
+  Threads = {1}
+  Deadlines = {0,1,2,3}
+  MaxNow = 3
+  MaxSaves = 5
   Backend = "memory"
   Net = FALSE
   IntMax = 1000
-  GcBatch = 1
+  GcBatch = 2
   Bug = "none"
 CONSTRAINT Bounded
 INVARIANTS TypeOK LoadCorrect LiveKept HeldSound IndexConsistent
